@@ -311,8 +311,8 @@ Proof.
   intros cl (key & o & _ & _ & _ & ->). eapply fc_known; [exact Hin|reflexivity].
 Qed.
 
-Lemma ssa_child_calls c kc obs d :
-  In kc (known c) -> all_calls (finish_call c) (ssa_child c kc obs d).
+Lemma ssa_child_calls c kc parent obs d :
+  In kc (known c) -> all_calls (finish_call c) (ssa_child c kc parent obs d).
 Proof.
   intros Hin. unfold ssa_child. cbv zeta. apply all_calls_bind.
   - destruct obs as [old|]; [|apply AC_ret].
